@@ -21,6 +21,9 @@ RULE = (
     "output; no selection and no format => the file, record for record. Any other exception is a violation. Non-trivial = a "
     "query that hits >=1 record and misses >=1, or names an unaligned node, or hits a record that visits a queried node "
     "twice. Distinct by SHA-1 of the case."
+    " Later additions: index GAF + view GAF -n through a symbolic link with the default index name, an index "
+    "path that held another index, one-character and comma-containing segment names, records starting at BGZF "
+    "block starts, non-htslib BGZF header bytes."
 )
 ASSUMPTIONS = ["a graph node literally named 'r' collides with the pickled 'ref_contig' key lookup and is not generated"]
 
